@@ -226,8 +226,19 @@ def k_fstring(x: Any, in_slice: bool) -> Optional[Any]:
     return None
 
 
+def k_dict_unpack(x: Any, in_slice: bool) -> Optional[Any]:
+    """(only matters inside text delegated to astor, which writes `**` + the value without parentheses)"""
+    if x[0] == 9:
+        def low(v: Any) -> bool:
+            return v[0] == 5 or (v[0] == 3 and v[1] == 2) or (v[0] == 13 and v[1] in (0, 1, 2))
+        if any(k is None and low(v) for k, v in x[1]):
+            return [9, [[k, ([1, 'du'] if (k is None and low(v)) else v)] for k, v in x[1]]]
+    return None
+
+
 KNOWN_CLASSES = [('C15-one-tuple', k_one_tuple), ('C15-slice-tuple-bound', k_slice_tuple), ('C15-bytes-quote', k_bytes_quote),
-                 ('C15-float-inf', k_inf), ('C15-str-nul', k_nul), ('C15-fstring-brace', k_fstring)]
+                 ('C15-float-inf', k_inf), ('C15-str-nul', k_nul), ('C15-fstring-brace', k_fstring),
+                 ('C15-astor-dict-unpack', k_dict_unpack)]
 
 
 def repair(e: Any) -> Tuple[Any, List[str]]:
@@ -460,17 +471,56 @@ class Check(PropertyCheck):
         return out
 
     # ------------------------------------------------------------------------------------------ correspondence
+    BATCH = 120000
+
     def correspondence(self) -> List[Violation]:
         t0 = time.time()
         cases = self.cases()
         self.stats['t_cases'] = round(time.time() - t0, 1)
-        impl = lib.run_impl_worker(WORKER, cases, jobs=16)
-        self.stats['t_impl'] = round(time.time() - t0, 1)
         self.evaluations = len(cases)
-        out: List[Violation] = []
-        ncorr = 0
+        acc: Dict[str, Any] = {'out': [], 'ncorr': 0, 'nontrivial': 0, 'ntok': 0, 'nread': 0, 'fails': [], 'm1': [],
+                               't_impl': 0.0, 't_model': 0.0, 'model_runs': 0}
+        for lo in range(0, len(cases), self.BATCH):
+            self.run_batch(cases[lo:lo + self.BATCH], acc)
+        out: List[Violation] = acc['out']
+        self.stats['t_impl'] = round(acc['t_impl'], 1)
+        self.stats['t_model'] = round(acc['t_model'], 1)
+        self.stats['model_runs'] = acc['model_runs']
+        self.stats['correspondence_mismatches'] = acc['ncorr']
+        self.stats['distinct_nontrivial'] = acc['nontrivial']
+        self.stats['token_views_checked'] = acc['ntok']
+        self.stats['read_print_instances'] = acc['nread']
+        self.stats['t_batches'] = round(time.time() - t0, 1)
+
+        # oracle: failures explained by a recorded defect class are verified in one batch (the failure must disappear when
+        # the instances of the class are replaced by harmless siblings); unexplained ones are reported first
+        fails = acc['fails']
+        self.stats['oracle_failures_before_known_findings'] = len(fails)
+        self.explain_batch([(c, v) for c, _, v in fails])
+        per_class: Dict[str, int] = {}
+        for c, o, v in sorted(fails, key=lambda t: len(json.dumps(t[0]))):
+            kid = self._explained.get(json.dumps(c)) or ''
+            per_class[kid] = per_class.get(kid, 0) + 1
+            if per_class[kid] <= (20 if kid == '' else 3):
+                out.append(Violation('oracle', v, case=c, observed=o))
+        self.stats['oracle_failures_by_known_class'] = {k or 'UNEXPLAINED': n for k, n in per_class.items()}
+
+        for c in [cases[0], cases[len(cases) // 3], cases[len(cases) // 2], cases[-1]]:
+            self.sample({'expr': c[0], 'linelen': c[1], 'maxlines': c[2], 'linebreakok': c[3], 'ctx': c[4]})
+
+        self.stats['t_explain'] = round(time.time() - t0, 1)
+        self.spec_validation(acc['m1'])
+        self.stats['t_specval'] = round(time.time() - t0, 1)
+        return out
+
+    def run_batch(self, cases: List[List[Any]], acc: Dict[str, Any]) -> None:
+        t0 = time.time()
+        impl = lib.run_impl_worker(WORKER, cases, jobs=16)
+        acc['t_impl'] += time.time() - t0
+        out: List[Violation] = acc['out']
 
         # model: mode 0 on every case, mode 1 once per (ctx, expression)
+        t1 = time.time()
         m0_in: List[str] = []
         m0_idx: List[int] = []
         m1_keys: Dict[str, int] = {}
@@ -488,14 +538,15 @@ class Check(PropertyCheck):
                     m1_in.append(enc([1, ctx, o['mexpr']]))
         m0 = self.model('exprprint', m0_in)
         m1 = self.model('exprprint', m1_in)
-        self.stats['model_runs'] = len(m0_in) + len(m1_in)
-        self.stats['t_model'] = round(time.time() - t0, 1)
+        acc['model_runs'] += len(m0_in) + len(m1_in)
+        acc['t_model'] += time.time() - t1
+        want_m1 = 400 if self.tier == 'quick' else 6000
+        step = max(1, (self.evaluations // 2) // want_m1)
+        acc['m1'].extend(m1[::step])
 
         verdicts = self.run_oracle(cases, impl)
-        self.stats['t_oracle'] = round(time.time() - t0, 1)
 
         gen_cache: Dict[str, Optional[List[str]]] = {}
-        nontrivial = 0
         for j, i in enumerate(m0_idx):
             c, o = cases[i], impl[i]
             e, ll, ml, lb, ctx = c
@@ -523,18 +574,14 @@ class Check(PropertyCheck):
             if any(k == 6 for k, _ in o['nodes']):
                 self.count('wrapped')
             if canon_model != canon_impl:
-                ncorr += 1
-                if ncorr <= 20:
+                acc['ncorr'] += 1
+                if acc['ncorr'] <= 20:
                     out.append(Violation('correspondence', 'Model.ExprPrint/Wrap and _pyval_repr disagree on the displayed nodes',
                                          case=c, expected=canon_model, observed=canon_impl))
             if depth(e) >= 2 or (ll, ml, lb) != FLAT:
-                nontrivial += 1
-        self.stats['t_compare'] = round(time.time() - t0, 1)
-        self.stats['correspondence_mismatches'] = ncorr
-        self.stats['distinct_nontrivial'] = nontrivial
+                acc['nontrivial'] += 1
 
         # token view of the model against CPython's tokenizer on the real flat text; theorem instance read(pp e) = norm e
-        ntok = nread = 0
         for i, (c, o) in enumerate(zip(cases, impl)):
             e, ll, ml, lb, ctx = c
             if (ll, ml, lb) != FLAT or 'mexpr' not in o or 'error' in o:
@@ -553,50 +600,29 @@ class Check(PropertyCheck):
                         break
                     want.extend(docutils_unescape(x) for x in s)
                 if want is not None:
-                    ntok += 1
+                    acc['ntok'] += 1
                     if want != o['toks'] and len(out) < 40:
                         out.append(Violation('correspondence', 'the token view Model.ExprPrint.pp differs from CPython tokenize on '
                                              'the displayed text', case=c, expected=want, observed=o['toks']))
             # the theorem C15_read_print on this instance (guard: no recorded defect class, canonical tree)
             _, hits = repair(e)
             if o['canon'] and 'C15-one-tuple' not in hits:
-                nread += 1
+                acc['nread'] += 1
                 if not read_ok and len(out) < 40:
                     out.append(Violation('correspondence', 'Spec.PyGrammar.read (pp e) <> norm e on a tree inside the guard of '
                                          'C15_read_print', case=c, expected='read back', observed=tree))
-        self.stats['t_tokens'] = round(time.time() - t0, 1)
-        self.stats['token_views_checked'] = ntok
-        self.stats['read_print_instances'] = nread
 
-        # oracle: failures explained by a recorded defect class are verified in one batch (the failure must disappear when
-        # the instances of the class are replaced by harmless siblings); unexplained ones are reported first
-        fails = [(c, o, v) for c, o, v in zip(cases, impl, verdicts) if v]
-        self.stats['oracle_failures_before_known_findings'] = len(fails)
-        self.explain_batch([(c, v) for c, _, v in fails])
-        per_class: Dict[str, int] = {}
-        for c, o, v in sorted(fails, key=lambda t: len(json.dumps(t[0]))):
-            kid = self._explained.get(json.dumps(c)) or ''
-            per_class[kid] = per_class.get(kid, 0) + 1
-            if per_class[kid] <= (20 if kid == '' else 3):
-                out.append(Violation('oracle', v, case=c, observed={k: o.get(k) for k in ('text', 'complete', 'error', 'lw_mutated')}))
-        self.stats['oracle_failures_by_known_class'] = {k or 'UNEXPLAINED': n for k, n in per_class.items()}
-
-        for c in [cases[0], cases[len(cases) // 3], cases[len(cases) // 2], cases[-1]]:
-            self.sample({'expr': c[0], 'linelen': c[1], 'maxlines': c[2], 'linebreakok': c[3], 'ctx': c[4]})
-
-        self.stats['t_explain'] = round(time.time() - t0, 1)
-        self.spec_validation(m1, m1_keys)
-        self.stats['t_specval'] = round(time.time() - t0, 1)
-        return out
+        for c, o, v in zip(cases, impl, verdicts):
+            if v:
+                acc['fails'].append((c, {k: o.get(k) for k in ('text', 'complete', 'error', 'lw_mutated')}, v))
 
     # ------------------------------------------------------------------------------------------ spec validation
-    def spec_validation(self, m1: List[str], m1_keys: Dict[str, int]) -> None:
+    def spec_validation(self, m1: List[str]) -> None:
         """Spec.PyGrammar.read against ast.parse: on the token strings the model printed and on perturbed ones
         (a token dropped, doubled, swapped with its neighbour, or replaced).  A disagreement is a defect of the
         verification itself: raised, not reported as a finding about pydoctor."""
-        n = 400 if self.tier == 'quick' else 6000
         streams: List[List[Any]] = []
-        for r in m1[:: max(1, len(m1) // n)]:
+        for r in m1:
             m = dec(r)
             if m in ([-998], [-999]):
                 continue
@@ -605,9 +631,7 @@ class Check(PropertyCheck):
             simple = []
             for t in toks:
                 if isinstance(t, list) and t[0] == 0:
-                    leaf = t[2]
-                    if leaf[0] == 13 or leaf[1] in (1, 2):      # delegated text / strings: not part of the reader's own grammar
-                        t = [0, [49], [0, 0, [49]]]             # the number 1 in their place
+                    t = [0, [49], [0, 0, [49]]]                 # every literal / delegated text: the number 1 in its place
                 simple.append(t)
             if ok:
                 streams.append(simple)
@@ -658,7 +682,8 @@ class Check(PropertyCheck):
 
     # ------------------------------------------------------------------------------------------ search / replay / known
     def search(self, broken: List[Violation]) -> List[Violation]:
-        """Oracle alone on a wider stream against the real code."""
+        """Oracle alone against the real code: the diverging inputs first, then the thorough domain (time-boxed when the
+        check itself runs in the quick tier)."""
         saved = self.tier
         found: List[Violation] = []
         try:
@@ -666,14 +691,17 @@ class Check(PropertyCheck):
             cases = self.cases()
         finally:
             self.tier = saved
-        # diverging inputs first
         first = [b.case for b in broken if b.case]
         cases = first + cases
-        for lo in range(0, len(cases), 60000):
-            chunk = cases[lo:lo + 60000]
+        deadline = time.time() + (240 if saved == 'quick' else 1500)
+        known, _ = lib.load_known_findings(self.id)
+        for lo in range(0, len(cases), 40000):
+            if time.time() > deadline:
+                self.notes.append('search stopped at its time budget after %d cases' % lo)
+                break
+            chunk = cases[lo:lo + 40000]
             impl = lib.run_impl_worker(WORKER, chunk, jobs=16)
             verdicts = self.run_oracle(chunk, impl)
-            known, _ = lib.load_known_findings(self.id)
             self.explain_batch([(c, v) for c, v in zip(chunk, verdicts) if v])
             for c, o, v in zip(chunk, impl, verdicts):
                 if v:
